@@ -453,6 +453,11 @@ func (i *IfUnless) Evaluation(
 	t *base.T,
 ) (err error) {
 
+	// Every conditional gets its own narrowing state: the evaluator registered
+	// for "if"/"unless" is a single shared instance, and a conditional nested in
+	// a branch must not wipe the bookkeeping of the enclosing one.
+	i = &IfUnless{conditionType: i.conditionType}
+
 	// clear
 	i.originalTs = make(map[string][]base.T)
 	i.narrowTs = make(map[string][]base.T)
